@@ -191,6 +191,7 @@ func checkC07(c *Ctx) {
 	c.Rule("C07.R1", "grant match table (checkCmd): a nil-error return requires, for one and the same grant element, StartTime <= now < ExpTime, (Command and !shell and Cmd == cmd) or (Shell and shell), and the element deleted from sess.authorizedActions before the return (E1 decision table)")
 	c.Rule("C07.R2", "every action of a grant session is checked: each handler that sess.start dispatches and that reaches an effect (process start, dial/listen, grant issuing) runs it only where usingAuthGrant is known false or a grant check (checkCmd) returned nil, in the dispatcher or in the handler; the grant fields are written only by checkAuthorization/checkCmd (E4 reachability + guarded-state dataflow)")
 	c.Rule("C07.R3", "grants move, never copy: a successful AuthorizeKeyAuthGrant removes the delegate key from the transport key set on the same path (E1)")
+	c.Rule("C07.R5", "consumption at admission is atomic: RemoveAuthgrants returns grants only from agMap[user][key], found there, deleted on the same path, with the read and the delete in one critical section of the map's lock (E1 + E5)")
 	c.Rule("C07.R4", "target-side intent policy (checkIntent): nil only if ExpTime is not in the past, sess.user == intent.TargetUsername, the delegate certificate is well-formed and the grant type is known (E1 decision table)")
 	c.Decides("match/consume shape of grant use, coverage of action kinds by a fail-closed check, fail-closed intent policy")
 	c.NotDecided("wall-clock behaviour between check and use; expiry of stored grants that are never used")
@@ -198,6 +199,7 @@ func checkC07(c *Ctx) {
 	c07R2(c)
 	c07R3(c)
 	c07R4(c)
+	removeAuthgrantsRule(c, "C07.R5")
 }
 
 func c07R1(c *Ctx) {
